@@ -22,35 +22,35 @@ SCENARIOS = {
 PROPS = {
     "C01": dict(quick=["book1", "fee", "frac", "marker", "mig"],
                 thorough=["book1", "book2", "fee", "feebig", "feearith", "frac", "marker", "mig", "cfg"],
-                drive=[("mixed", 2, 40, 250)]),
+                drive=[("mixed", 2, 25, 250), ("fee", 0, 15, 250), ("migrate", 0, 15, 250), ("conv", 0, 10, 250)]),
     "C02": dict(quick=["book1", "fee", "feearith", "auth", "marker", "mig"],
                 thorough=["book1", "fee", "feearith", "feebig", "auth", "marker", "frac", "mig"],
-                drive=[("match", 2, 40, 250)]),
+                drive=[("match", 2, 25, 250), ("fee", 0, 15, 250), ("conv", 0, 10, 250)]),
     "C03": dict(quick=["book1", "book2", "frac"], thorough=["book1", "book2", "frac", "fee", "cfg"],
-                drive=[("match", 2, 40, 250)]),
+                drive=[("match", 2, 30, 250), ("mixed", 0, 10, 250)]),
     "C04": dict(quick=["book1", "fee", "feebig", "marker", "mig"],
                 thorough=["book1", "fee", "feebig", "marker", "auth", "frac", "mig"],
-                drive=[("reverse", 2, 40, 250)]),
-    "C05": dict(quick=["auth", "book2"], thorough=["auth", "book2", "cfg", "mig"], drive=[("mixed", 2, 40, 250)]),
+                drive=[("reverse", 2, 25, 250), ("fee", 0, 15, 250), ("conv", 0, 10, 250)]),
+    "C05": dict(quick=["auth", "book2"], thorough=["auth", "book2", "cfg", "mig"], drive=[("mixed", 2, 25, 250), ("modify", 0, 15, 250)]),
     "C06": dict(quick=["book1", "fee", "frac", "marker", "mig"],
                 thorough=["book1", "fee", "feebig", "frac", "marker", "mig", "book2"],
-                drive=[("mixed", 2, 40, 250)]),
-    "C07": dict(quick=["admit", "feearith"], thorough=["admit", "feearith", "book1", "fee"], drive=[("create", 2, 40, 250)]),
-    "C08": dict(quick=["book1", "marker", "admit"], thorough=["book1", "marker", "admit", "frac"], drive=[("conv", 2, 40, 250)]),
+                drive=[("mixed", 2, 25, 250), ("reverse", 0, 15, 250), ("migrate", 0, 10, 250)]),
+    "C07": dict(quick=["admit", "feearith"], thorough=["admit", "feearith", "book1", "fee"], drive=[("create", 2, 30, 250), ("fee", 0, 10, 250)]),
+    "C08": dict(quick=["book1", "marker", "admit"], thorough=["book1", "marker", "admit", "frac"], drive=[("conv", 2, 35, 250)]),
     "C09": dict(quick=["fee", "feebig", "feearith", "frac"], thorough=["fee", "feebig", "feearith", "book1", "frac", "mig"],
-                drive=[("fee", 2, 40, 250)]),
-    "C10": dict(quick=["marker"], thorough=["marker", "admit"], drive=[("mixed", 2, 40, 250)]),
+                drive=[("fee", 2, 30, 250), ("match", 0, 10, 250)]),
+    "C10": dict(quick=["marker"], thorough=["marker", "admit"], drive=[("mixed", 2, 25, 250), ("conv", 0, 15, 250)]),
     "C11": dict(quick=["book2", "book1", "frac", "admit"], thorough=["book2", "book1", "frac", "admit", "fee"],
-                drive=[("mixed", 2, 40, 250)]),
-    "C12": dict(quick=["cfg"], thorough=["cfg"], drive=[("modify", 2, 40, 250)]),
+                drive=[("mixed", 2, 25, 250), ("match", 0, 15, 250)]),
+    "C12": dict(quick=["cfg"], thorough=["cfg"], drive=[("modify", 2, 35, 250)]),
     "C13": dict(quick=["inst", "instbig", "admit", "frac"], thorough=["inst", "instbig", "admit", "frac"],
                 drive=[("create", 1, 20, 150)]),
-    "C14": dict(quick=["mig"], thorough=["mig", "migarb"], drive=[("migrate", 2, 40, 250)]),
-    "C15": dict(quick=["mig", "migarb"], thorough=["mig", "migarb"], drive=[("migrate", 2, 40, 250)]),
-    "C16": dict(quick=["book1", "book2", "mig", "inst"], thorough=["book1", "book2", "mig", "inst", "frac"], drive=[("mixed", 2, 40, 250)]),
+    "C14": dict(quick=["mig"], thorough=["mig", "migarb"], drive=[("migrate", 2, 35, 250)]),
+    "C15": dict(quick=["mig", "migarb"], thorough=["mig", "migarb"], drive=[("migrate", 2, 35, 250)]),
+    "C16": dict(quick=["book1", "book2", "mig", "inst"], thorough=["book1", "book2", "mig", "inst", "frac"], drive=[("mixed", 2, 25, 250), ("migrate", 0, 10, 250)]),
     "C17": dict(quick=["book1", "fee", "marker", "mig", "frac"],
                 thorough=["book1", "fee", "feearith", "marker", "auth", "mig", "frac"],
-                drive=[("mixed", 2, 40, 250)]),
+                drive=[("mixed", 2, 25, 250), ("match", 0, 10, 250), ("reverse", 0, 10, 250)]),
 }
 
 ALL_PROPS = ["C%02d" % i for i in range(1, 18)]
